@@ -72,20 +72,36 @@ Proof.
   split; [|intros _; split; reflexivity]. intros _. repeat split; try assumption. intros _. lia.
 Qed.
 
-Lemma check_subject_iff s c :
-  check_subject s c = true <-> (s = SubIsIssuer -> c_sub c = c_iss c).
+(* what the configured subject check demands; no check at all (nil) is never passed *)
+Definition subject_ok (s : subcheck) (c : claims) : Prop :=
+  match s with
+  | SubIsIssuer => c_sub c = c_iss c
+  | SubAny => True
+  | SubOnly x => c_sub c = x
+  | SubNil => False
+  end.
+
+Lemma check_subject_iff s c : check_subject s c = None <-> subject_ok s c.
 Proof.
-  destruct s; cbn.
-  - rewrite String.eqb_eq. split; [intros H _; now symmetry | intro H; symmetry; now apply H].
-  - split; [intros _ H; discriminate | reflexivity].
+  destruct s as [| |x|]; cbn [check_subject subject_ok].
+  - destruct (String.eqb_spec (c_iss c) (c_sub c)) as [He|He].
+    + split; [intros _; now symmetry | reflexivity].
+    + split; [discriminate | intro H; elim He; now symmetry].
+  - split; [intros _; exact I | reflexivity].
+  - destruct (String.eqb_spec (c_sub c) x) as [He|He]; split; try discriminate; try reflexivity; try (intros _; assumption).
+    intro H. contradiction.
+  - split; [discriminate | intros []].
 Qed.
+
+Lemma subject_ok_default s c : subject_ok s c -> (s = SubIsIssuer -> c_sub c = c_iss c) /\ s <> SubNil.
+Proof. destruct s; cbn; intro H; split; try discriminate; try (intros _; exact H); try contradiction; intro; discriminate. Qed.
 
 Lemma verify_assertion_iff verify v t now tok c :
   verify_assertion verify v t now tok = Ok c <->
   exists d, tok = TJws d c
     /\ In (v_issuer v) (c_aud c)
     /\ time_ok v now c
-    /\ (v_sub v = SubIsIssuer -> c_sub c = c_iss c)
+    /\ subject_ok (v_sub v) c
     /\ sig_ok verify t (c_iss c) d.
 Proof.
   split.
@@ -93,7 +109,7 @@ Proof.
     destruct (string_in (v_issuer v) (c_aud c0)) eqn:Ha; cbn [negb]; [|discriminate].
     destruct (check_expiration now (v_offset v) (c_exp c0)) eqn:He; cbn [negb]; [|discriminate].
     destruct (check_issued_at now (v_max_age v) (v_offset v) (c_iat c0)) eqn:Hi; [discriminate|].
-    destruct (check_subject (v_sub v) c0) eqn:Hs; cbn [negb]; [|discriminate].
+    destruct (check_subject (v_sub v) c0) eqn:Hs; [discriminate|].
     destruct (check_signature verify t (c_iss c0) d) eqn:Hg; [discriminate|].
     intro H. injection H as <-. exists d. split; [reflexivity|].
     split; [now apply string_in_In|]. split; [apply time_iff; now split|].
@@ -101,8 +117,38 @@ Proof.
   - intros (d & -> & Ha & Ht & Hs & Hg). cbn [verify_assertion].
     apply string_in_In in Ha. rewrite Ha. cbn [negb].
     apply time_iff in Ht. destruct Ht as [He Hi]. rewrite He, Hi. cbn [negb].
-    apply check_subject_iff in Hs. rewrite Hs. cbn [negb].
+    apply check_subject_iff in Hs. rewrite Hs.
     apply check_signature_iff in Hg. rewrite Hg. reflexivity.
+Qed.
+
+(* the only way not to return: the subject check is nil *)
+Lemma verify_assertion_panics verify v t now tok :
+  verify_assertion verify v t now tok = Err EPanicked -> v_sub v = SubNil.
+Proof.
+  destruct tok as [| | |d c]; cbn [verify_assertion]; try discriminate.
+  destruct (string_in (v_issuer v) (c_aud c)); cbn [negb]; [|discriminate].
+  destruct (check_expiration now (v_offset v) (c_exp c)); cbn [negb]; [|discriminate].
+  unfold check_issued_at.
+  destruct (Z.eqb (c_iat c) 0); [discriminate|].
+  destruct (Z.ltb (round_s (now + v_offset v)) (c_iat c * second)); [discriminate|].
+  assert (Hrest : match check_subject (v_sub v) c with
+                  | Some e => Err e
+                  | None => match check_signature verify t (c_iss c) d with Some e => Err e | None => Ok c end
+                  end = Err EPanicked -> v_sub v = SubNil).
+  { destruct (v_sub v) as [| |x|]; cbn [check_subject]; try reflexivity.
+    - destruct (String.eqb (c_iss c) (c_sub c)); [|discriminate].
+      unfold check_signature. destruct (sd_wf d); cbn [negb]; [|discriminate].
+      destruct (string_in (sd_alg d) accepted_algs); cbn [negb]; [|discriminate].
+      destruct (lookup_key t (c_iss c) (sd_kid d)) as [k|]; [|discriminate]. destruct (verify k d); discriminate.
+    - unfold check_signature. destruct (sd_wf d); cbn [negb]; [|discriminate].
+      destruct (string_in (sd_alg d) accepted_algs); cbn [negb]; [|discriminate].
+      destruct (lookup_key t (c_iss c) (sd_kid d)) as [k|]; [|discriminate]. destruct (verify k d); discriminate.
+    - destruct (String.eqb (c_sub c) x); [|discriminate].
+      unfold check_signature. destruct (sd_wf d); cbn [negb]; [|discriminate].
+      destruct (string_in (sd_alg d) accepted_algs); cbn [negb]; [|discriminate].
+      destruct (lookup_key t (c_iss c) (sd_kid d)) as [k|]; [|discriminate]. destruct (verify k d); discriminate. }
+  destruct (Z.eqb (v_max_age v) 0); [exact Hrest|].
+  destruct (Z.ltb (c_iat c * second) (round_s (now - v_max_age v))); [discriminate | exact Hrest].
 Qed.
 
 Lemma client_jwt_auth_iff verify v t now tok id :
@@ -218,10 +264,21 @@ Lemma assertion_sound verify v t now tok c :
     /\ c_exp c <> 0 /\ now + v_offset v < c_exp c * second
     /\ c_iat c <> 0 /\ c_iat c * second <= round_s (now + v_offset v)
     /\ (v_max_age v <> 0 -> round_s (now - v_max_age v) <= c_iat c * second)
-    /\ (v_sub v = SubIsIssuer -> c_sub c = c_iss c).
+    /\ (v_sub v = SubIsIssuer -> c_sub c = c_iss c)
+    /\ v_sub v <> SubNil.
 Proof.
   intro H. apply verify_assertion_iff in H. destruct H as (d & -> & Ha & Ht & Hs & (Hw & Hal & Hk)).
+  apply subject_ok_default in Hs. destruct Hs as [Hs1 Hs2].
   exists d. unfold time_ok in Ht. tauto.
+Qed.
+
+Lemma nil_subject_check verify v t now tok :
+  (verify_assertion verify v t now tok = Err EPanicked -> v_sub v = SubNil)
+  /\ (v_sub v = SubNil -> forall c, verify_assertion verify v t now tok <> Ok c).
+Proof.
+  split; [apply verify_assertion_panics|].
+  intros Hn c H. apply assertion_sound in H. destruct H as (d & _ & _ & _ & _ & _ & _ & _ & _ & _ & _ & Hnn).
+  contradiction.
 Qed.
 
 Lemma assertion_sound_symbolic v t now tok c :
@@ -271,8 +328,13 @@ Proof.
   split; [now exists c | assumption].
 Qed.
 
+Lemma subject_ok_self s client auds iat e :
+  (s = SubIsIssuer \/ s = SubAny) -> subject_ok s (mkClaims client client auds iat e).
+Proof. intros [-> | ->]; cbn; [reflexivity | exact I]. Qed.
+
 (* interop: what the client helpers build *)
 Lemma interop verify v t now tb client kid key alg auds e :
+  (v_sub v = SubIsIssuer \/ v_sub v = SubAny) ->
   (forall d, sd_intact d = true -> verify (sd_signer d) d = true) ->
   lookup_key t client kid = Some key ->
   In alg accepted_algs -> In (v_issuer v) auds ->
@@ -282,7 +344,7 @@ Lemma interop verify v t now tb client kid key alg auds e :
   let c := mkClaims client client auds (tb / second) e in
   verify_assertion verify v t now (TJws (mkSig true alg kid key true) c) = Ok c.
 Proof.
-  intros Hv Hk Hal Ha Ho Hm Htb Hnow He He2 c. subst c. apply verify_assertion_iff.
+  intros Hsub Hv Hk Hal Ha Ho Hm Htb Hnow He He2 c. subst c. apply verify_assertion_iff.
   exists (mkSig true alg kid key true). split; [reflexivity|]. split; [exact Ha|].
   split.
   - unfold time_ok. cbn [c_exp c_iat].
@@ -290,7 +352,7 @@ Proof.
     split; [unfold second in *; lia|].
     split; [apply round_s_floor; unfold second in *; lia|].
     intro Hm0. apply round_s_below. unfold second in *. lia.
-  - split; [reflexivity|]. unfold sig_ok. cbn [sd_wf sd_alg sd_kid c_iss].
+  - split; [now apply subject_ok_self|]. unfold sig_ok. cbn [sd_wf sd_alg sd_kid c_iss].
     split; [reflexivity|]. split; [exact Hal|]. exists key. split; [exact Hk|].
     apply (Hv (mkSig true alg kid key true)). reflexivity.
 Qed.
@@ -299,6 +361,7 @@ Qed.
    call writes for its own clock reading [tb] is accepted at [now] by a verifier whose max
    age is 0 or at least (now - tb) + 1.5 s, as long as the asked lifetime has not run out *)
 Lemma interop_fresh verify v t now tb client kid key alg auds life :
+  (v_sub v = SubIsIssuer \/ v_sub v = SubAny) ->
   (forall d, sd_intact d = true -> verify (sd_signer d) d = true) ->
   lookup_key t client kid = Some key ->
   In alg accepted_algs -> In (v_issuer v) auds ->
@@ -309,7 +372,7 @@ Lemma interop_fresh verify v t now tb client kid key alg auds life :
   verify_assertion verify v t now (helper_token client auds life alg kid key tb)
   = Ok (helper_claims client auds life tb).
 Proof.
-  intros Hv Hk Hal Ha Ho Hm Htb Hnow He. unfold helper_token. apply verify_assertion_iff.
+  intros Hsub Hv Hk Hal Ha Ho Hm Htb Hnow He. unfold helper_token. apply verify_assertion_iff.
   exists (mkSig true alg kid key true). split; [reflexivity|]. split; [exact Ha|].
   split.
   - unfold time_ok, helper_claims. cbn [c_exp c_iat].
@@ -319,7 +382,7 @@ Proof.
     generalize dependent (round_s (now + v_offset v)). generalize dependent (round_s (now - v_max_age v)).
     intros r2 Hr r1 Hf. unfold second, half_second in *.
     repeat split; lia.
-  - split; [reflexivity|]. unfold sig_ok, helper_claims. cbn [sd_wf sd_alg sd_kid c_iss].
+  - split; [now apply subject_ok_self|]. unfold sig_ok, helper_claims. cbn [sd_wf sd_alg sd_kid c_iss].
     split; [reflexivity|]. split; [exact Hal|]. exists key. split; [exact Hk|].
     apply (Hv (mkSig true alg kid key true)). reflexivity.
 Qed.
@@ -329,7 +392,7 @@ Qed.
    what call n sends does not depend on the calls before it *)
 Definition helper_step_ok (life : Z) (issuer_in : vcfg -> Prop) (s : vcfg * Z * Z) : Prop :=
   let '(v, now, tb) := s in
-  issuer_in v /\ 0 <= v_offset v
+  issuer_in v /\ (v_sub v = SubIsIssuer \/ v_sub v = SubAny) /\ 0 <= v_offset v
   /\ (v_max_age v = 0 \/ now - tb + second + half_second <= v_max_age v)
   /\ second <= tb /\ tb <= now /\ now + v_offset v < (tb / second + life) * second.
 
@@ -344,7 +407,7 @@ Proof.
   intros Hv Hk Hal Hall. unfold verify_sequence, helper_sequence.
   induction Hall as [|[[v now] tb] calls Hs Hall IH]; [reflexivity|].
   cbn [map combine fst snd]. rewrite IH. f_equal.
-  destruct Hs as (Ha & Ho & Hm & Htb & Hnow & He).
+  destruct Hs as (Ha & Hsub & Ho & Hm & Htb & Hnow & He).
   now apply interop_fresh.
 Qed.
 
@@ -472,19 +535,13 @@ Proof.
 Qed.
 
 Lemma from_s_pick o i : from_s o i (pick i o) = true.
-Proof.
-  unfold from_s, pick. destruct (nonempty i); rewrite String.eqb_refl; [apply orb_true_r | reflexivity].
-Qed.
+Proof. unfold from_s, pick. destruct (nonempty i); apply String.eqb_refl. Qed.
 
 Lemma from_l_pickl o i : from_l o i (pickl i o) = true.
-Proof.
-  unfold from_l, pickl. destruct i; rewrite strs_eqb_refl; [reflexivity | apply orb_true_r].
-Qed.
+Proof. unfold from_l, pickl. destruct i; apply strs_eqb_refl. Qed.
 
 Lemma from_o_picko o i : from_o o i (picko i o) = true.
-Proof.
-  unfold from_o, picko. destruct i; rewrite optn_eqb_refl; [apply orb_true_r | reflexivity].
-Qed.
+Proof. unfold from_o, picko. destruct i; apply optn_eqb_refl. Qed.
 
 Lemma fields_from_copy outer inner : fields_from outer inner (copy_request_object outer inner) = true.
 Proof.
@@ -493,9 +550,9 @@ Proof.
        ar_display ar_prompt ar_max_age ar_ui_locales ar_id_token_hint ar_login_hint ar_acr_values
        ar_code_challenge ar_code_challenge_method].
   rewrite !from_s_pick, !from_l_pickl, from_o_picko, !String.eqb_refl.
-  destruct (string_in "openid" (ar_scopes outer)).
-  - rewrite from_l_pickl. reflexivity.
-  - unfold from_l. rewrite strs_eqb_refl. reflexivity.
+  unfold from_either. destruct (string_in "openid" (ar_scopes outer)).
+  - unfold pickl. destruct (ar_scopes inner); rewrite strs_eqb_refl; [reflexivity | now rewrite orb_true_r].
+  - rewrite strs_eqb_refl. reflexivity.
 Qed.
 
 Lemma signed_by_named_iff t client d :
@@ -631,8 +688,11 @@ Proof.
   assert (Hr := round_s_mono (t0 + v_offset v) (t1 + v_offset v)).
   generalize dependent (round_s (t0 + v_offset v)). generalize dependent (round_s (t1 + v_offset v)).
   generalize dependent (round_s (t0 - v_max_age v)). intros r3 Hm r2 r1 Hi Hr.
-  assert (Hsub : match v_sub v with SubIsIssuer => String.eqb (c_sub c) (c_iss c) | SubAny => true end = true).
-  { destruct (v_sub v); [|reflexivity]. apply String.eqb_eq. now apply Hs. }
+  assert (Hsub : match v_sub v with
+                 | SubAny | SubOnly _ => true
+                 | SubIsIssuer | SubNil => String.eqb (c_sub c) (c_iss c)
+                 end = true).
+  { destruct (v_sub v); cbn [subject_ok] in Hs; try reflexivity; [now apply String.eqb_eq | contradiction]. }
   rewrite Hsub. rewrite andb_true_r.
   repeat (apply andb_true_iff; split); lia.
 Qed.
@@ -659,7 +719,9 @@ Proof.
       generalize dependent (round_s (t0 + v_offset v)). generalize dependent (round_s (t0 - v_max_age v)).
       intros r2 Hr r1 Hf. unfold second, half_second in *.
       repeat split; lia.
-    + split; [intros _; now apply String.eqb_eq|].
+    + split.
+      { match goal with Hsc : match v_sub v with SubIsIssuer => _ | _ => _ end = true |- _ => rename Hsc into Hsubcfg end.
+        destruct (v_sub v); try discriminate; cbn [subject_ok]; [now apply String.eqb_eq | exact I]. }
       unfold sig_ok. split; [assumption|]. split; [now apply string_in_In|].
       now apply signed_by_named_iff.
   - match goal with He : match e with EVerify => _ | _ => _ end = true |- _ => rename He into Hent end.
@@ -704,8 +766,12 @@ Qed.
 Lemma spec_model i : wf i = true -> helper_alg_accepted i = true -> spec i (model i) = true.
 Proof.
   destruct i as [e helper v t cl t0 t1 tok | via sup t iss outer tok]; cbn [wf helper_alg_accepted]; intros Hwf Hh.
-  - cbn [model spec]. apply spec_assert_model; [lia|].
-    intros h d c -> ->. exact Hh.
+  - cbn [model]. destruct (panics v t t0 tok) eqn:Hp; cbn [spec].
+    + unfold panics in Hp.
+      destruct (verify_assertion sym_verify v t t0 tok) as [c|x] eqn:Hv; [discriminate|].
+      destruct x; try discriminate. apply verify_assertion_panics in Hv. now rewrite Hv.
+    + apply spec_assert_model; [lia|].
+      intros h d c -> ->. exact Hh.
   - destruct via; cbn [model spec].
     + unfold authorize_until_validation. destruct sup.
       * unfold run_request_object.
@@ -790,7 +856,36 @@ Example interop_fresh_nonvacuous :
 Proof.
   cbv zeta. split; [vm_compute; reflexivity|]. split; [vm_compute; reflexivity|].
   constructor; [|constructor; [|constructor]];
-    (split; [left; reflexivity|]); (split; [vm_compute; discriminate|]);
+    (split; [left; reflexivity|]); (split; [left; reflexivity|]); (split; [vm_compute; discriminate|]);
     (split; [right; vm_compute; discriminate|]); (split; [vm_compute; discriminate|]);
     (split; vm_compute; [discriminate | reflexivity]).
 Qed.
+
+(* a verifier without any subject check (nil) accepts nothing: an otherwise valid
+   assertion - with sub = iss or with a foreign sub - makes the call panic; the same foreign
+   sub is refused by the default check and accepted only under a caller-supplied check *)
+Example nil_subject_check_nonvacuous :
+  let vnil := mkV "https://op" (3600 * second) second SubNil CtorLiteral in
+  let foreign := TJws (mkSig true "RS256" "a1" 0%nat true) (mkClaims "c-alpha" "someone" ["https://op"] 1000 4600) in
+  verify_assertion sym_verify vnil nv_table (1000 * second + 5) nv_tok = Err EPanicked
+  /\ verify_assertion sym_verify vnil nv_table (1000 * second + 5) foreign = Err EPanicked
+  /\ verify_assertion sym_verify nv_v nv_table (1000 * second + 5) foreign = Err EOther
+  /\ verify_assertion sym_verify (mkV "https://op" (3600 * second) second (SubOnly "someone") CtorLiteral)
+       nv_table (1000 * second + 5) foreign = Ok (mkClaims "c-alpha" "someone" ["https://op"] 1000 4600)
+  /\ model (IAssert EVerify None vnil nv_table [] (1000 * second + 5) (1000 * second + 6) foreign) = OPanic.
+Proof. cbv zeta. repeat split; vm_compute; reflexivity. Qed.
+
+(* max_age = 0 inside an accepted object is present and overrides a plain max_age *)
+Example request_object_zero_max_age :
+  run_request_object sym_verify nv_table "https://op"
+    (mkAR ["openid"] "code" "c-alpha" "https://rp/cb" "s" "n" "" "" [] (Some 3600%N) [] "" "" [] "" "")
+    (TJws (mkSig true "ES256" "a1" 0%nat true)
+       (mkRO "c-alpha" ["https://op"] (mkAR [] "code" "c-alpha" "" "" "" "" "" [] (Some 0%N) [] "" "" [] "" "")))
+  = (None, mkAR ["openid"] "code" "c-alpha" "https://rp/cb" "s" "n" "" "" [] (Some 0%N) [] "" "" [] "" "", true)
+  /\ spec (IRequest false true nv_table "https://op"
+            (mkAR ["openid"] "code" "c-alpha" "https://rp/cb" "s" "n" "" "" [] (Some 3600%N) [] "" "" [] "" "")
+            (TJws (mkSig true "ES256" "a1" 0%nat true)
+               (mkRO "c-alpha" ["https://op"] (mkAR [] "code" "c-alpha" "" "" "" "" "" [] (Some 0%N) [] "" "" [] "" ""))))
+          (OReq None (mkAR ["openid"] "code" "c-alpha" "https://rp/cb" "s" "n" "" "" [] (Some 3600%N) [] "" "" [] "" "") true)
+     = false.
+Proof. split; vm_compute; reflexivity. Qed.
